@@ -112,7 +112,7 @@ def generate(seed, tier):
         # 'plain': the asynchronous dispatcher serving plain (non-coroutine) functions
         for is_async in (False, True, 'plain', 'wrapped'):
             out.append(dict(c, **{'async': is_async}))
-    return out
+    return dispenv.with_variants(out, 6, key=lambda c, v: dict(c, cfg=dict(c['cfg'], **v)))
 
 
 def observe(case):
